@@ -137,16 +137,21 @@ def c02(run, refs, qrys):
                         if rec['RefStartPos'] != fmt1(rpos[pairs[0][0] - 1]) or rec['RefEndPos'] != fmt1(rpos[pairs[-1][0] - 1]):
                             bad.append('RefStartPos_RefEndPos_are_first_and_last_listed_reference_labels')
                         qlabels = [q for _, q in pairs]
-                        if rec['Orientation'] == '+':
+                        if c01_pairs(pairs, rec['Orientation'], len(rpos), len(qpos)):
+                            # not a valid matching: that is a C01 violation (reported there, incl. the known conflict-resolution findings);
+                            # "outermost aligned labels" of C02 presupposes the listed pairs are collinear
+                            pass
+                        elif rec['Orientation'] == '+':
                             s, e = qpos[min(qlabels) - 1] - qpos[0], qpos[max(qlabels) - 1] - qpos[0]
                             ok_order = float(rec['QryStartPos']) <= float(rec['QryEndPos'])
                         else:
                             s, e = qpos[-1] - qpos[min(qlabels) - 1], qpos[-1] - qpos[max(qlabels) - 1]
                             ok_order = float(rec['QryStartPos']) >= float(rec['QryEndPos'])
-                        if rec['QryStartPos'] != fmt1(s) or rec['QryEndPos'] != fmt1(e):
-                            bad.append('QryStartPos_QryEndPos_are_offsets_of_outermost_aligned_query_labels')
-                        if not ok_order:
-                            bad.append('query_start_end_order_follows_orientation')
+                        if not c01_pairs(pairs, rec['Orientation'], len(rpos), len(qpos)):
+                            if rec['QryStartPos'] != fmt1(s) or rec['QryEndPos'] != fmt1(e):
+                                bad.append('QryStartPos_QryEndPos_are_offsets_of_outermost_aligned_query_labels')
+                            if not ok_order:
+                                bad.append('query_start_end_order_follows_orientation')
             except Exception as ex:
                 bad.append(f'well_formed_record:{type(ex).__name__}')
             for b in bad:
